@@ -27,15 +27,15 @@ ANCHORS = ["update_cache", "SymbolGraph.add_node", "SymbolGraph.remove_node", "S
            "SymbolGraph.get_instances_of_type", "Symbol.__new__"]
 
 OPS = ["create", "create", "create", "drop", "drop", "gc", "relate", "q_new", "q_new", "q_build", "q_build_attr", "q_eval", "q_eval",
-       "clear", "forget", "forget", "q_rule", "q_rule_eval", "q_rule_eval"]
+       "clear", "forget", "forget", "q_rule", "q_rule_eval", "q_rule_eval", "q_pair"]
 
 
 def plan(tier):
-    return {"cases": 2000 if tier == "quick" else 50000, "shards": 16, "case_timeout": 60, "shard_timeout": 3000,
+    return {"cases": 2400 if tier == "quick" else 50000, "shards": 16, "case_timeout": 60, "shard_timeout": 3000,
             "min_nontrivial": 100,
             "min_counters": {"queries_checked": 5000, "instances_reclaimed": 1000,
                              "clears": 100, "reevaluations": 500, "bulk_dropped": 2000, "rule_pairs_compared": 300,
-                             "rule_pairs_with_answers": 100}}
+                             "rule_pairs_with_answers": 100, "pair_queries_checked": 300}}
 
 
 def setup(ctx):
@@ -61,6 +61,9 @@ def gen(rng, tier, ctx):
         elif op in ("q_new", "q_build", "q_build_attr"):
             steps.append([op, rng.choice(["Person", "Employee", "Manager", "Org", "Dept", "Chief", "Volunteer", "WorkingStudent", "VOrg", "VPerson",
                                           "SeasonalA"])])
+        elif op == "q_pair":
+            t = rng.choice(["Person", "Org", "Employee", "Dept"])
+            steps.append([op, t, t if rng.random() < 0.7 else rng.choice(["Person", "Org", "Employee", "Dept", "Volunteer"])])
         elif op == "q_rule":
             steps.append([op, rng.choice(["Person", "Org", "Employee", "Dept"]), rng.choice(["Person", "Org", "Employee", "Dept", "Volunteer"])])
         elif op == "q_rule_eval":
@@ -259,6 +262,28 @@ def run(spec, ctx):
             T = om.ALL_CLASSES[step[1]]
             check_query(an(entity(let(T, None))), step[1], f"fresh query over {step[1]}", False, set())
             shape.append("q" + step[1][0])
+        elif op == "q_pair":
+            # two domain-less variables in one query (mostly of the same type): each ranges over every live instance
+            from krrood.entity_query_language.entity import set_of
+            T1, T2 = om.ALL_CLASSES[step[1]], om.ALL_CLASSES[step[2]]
+            a, b = let(T1, None), let(T2, None)
+            gc.collect()
+            try:
+                got = Counter((id(r[a]), id(r[b])) for r in an(set_of([a, b])).evaluate())
+            except Exception as e:
+                problems.append(f"pair query over {step[1]} x {step[2]}: evaluate raised {type(e).__name__}: {e}")
+                known = "__unexplained__"
+                continue
+            C["queries_checked"] += 1
+            C["pair_queries_checked"] += 1
+            l1, l2 = alive(step[1]), alive(step[2])
+            required = Counter((id(x), id(y)) for n, x in l1.items() for m_, y in l2.items() if n not in pre_clear and m_ not in pre_clear)
+            allowed = Counter((id(x), id(y)) for x in l1.values() for y in l2.values())
+            if (required - got) or (got - allowed):
+                problems.append(f"pair query over {step[1]} x {step[2]}: {sum(got.values())} pairs ({len(got)} distinct) for "
+                                f"{len(l1)} x {len(l2)} live instances")
+                known = "__unexplained__"
+            shape.append("P")
         elif op == "q_build":
             T = om.ALL_CLASSES[step[1]]
             queries.append([an(entity(let(T, None))), step[1], False, set()])
